@@ -2416,3 +2416,42 @@ func ruleWitnessCoveredShortcut(c *Ctx) {
 		}
 	}
 }
+
+// ---------------------------------------------------------------------------
+// context-height (C03, C01): an execution happens *at a height* - the block being processed, the tip for a test
+// invocation, an earlier block for a historic one - and interop.Context knows it (Context.BlockHeight, CurrentBlockHash).
+// Native contracts and system calls that ask the live ledger instead (ic.Chain.BlockHeight()) give the right answer in
+// block processing and at the tip, where the two coincide, and a drifting one in historic invocations: the
+// traceability window of Ledger.getBlock would follow the tip, and a call that returned a block at height h returns
+// null when replayed for h later. Inside the natives and the interop layer only interop.Context's own accessors may
+// read the ledger's current height or tip hash.
+func ruleContextHeight(c *Ctx) {
+	live := []string{"pkg/core/interop.(Ledger).BlockHeight", "pkg/core/interop.(Ledger).CurrentBlockHash", "pkg/core/interop.(Ledger).HeaderHeight"}
+	n, nAcc := 0, 0
+	for _, fd := range c.P.AllFuncDecls() {
+		rel := pkgRel(fd.Pkg.Types)
+		if fd.Decl.Body == nil || !(rel == "pkg/core/native" || strings.HasPrefix(rel, "pkg/core/interop")) {
+			continue
+		}
+		f := c.P.NewFuncCFG(fd)
+		sites := f.CallSites(live...)
+		if len(sites) == 0 {
+			continue
+		}
+		isAccessor := false
+		if sig := fd.Obj.Type().(*types.Signature); sig.Recv() != nil && namedTypeIs(sig.Recv().Type(), "pkg/core/interop", "Context") {
+			isAccessor = true
+		}
+		for _, st := range sites {
+			n++
+			key := fmt.Sprintf("context-height.%s#%d", FuncKey(fd.Obj), n)
+			if isAccessor {
+				nAcc++
+				c.OK(key, c.P.Pos(st.call.Pos()), "interop.Context's own accessor: falls back to the ledger only when the context carries no block")
+			} else {
+				c.Fail(key, c.P.Pos(st.call.Pos()), fmt.Sprintf("%s asks the live ledger for the current height/tip (%s) instead of the execution context: in a historic invocation the answer follows the tip, not the height the invocation is made for", FuncKey(fd.Obj), trunc(types.ExprString(st.call.Fun), 40)))
+			}
+		}
+	}
+	c.Floor("reads of the ledger's height inside interop.Context's accessors", nAcc, 3)
+}
